@@ -30,6 +30,10 @@ CHECKS.update({
    text="Explicit-state search over histories of writes, merges, announcements, restarts with load and snapshot round trips; (progress,max) sampled inside every event emission and at every quiescent state must never decrease while the store is open, and at rest progress == max with max Lamport time <= value <= entry count.",
    note="Trusted: sim environment; one database per instance; samples are linearised by reading under one lock.",
    tech="explicit-state DFS by replay with invariant monitors at every emission and every quiescent state"),
+ "C17": dict(cat="model_checking", ref="5/C17",
+   text="Stateless schedule enumeration of N concurrent writers on one real store, each stepped through the points begin / after append / after head persisted / after view update: every interleaving for N=2 (and N=3 in thorough), deviation-bounded for N up to 8; each execution runs to completion, then the instance is closed, reopened on the same cache and loaded. Acknowledged calls must have returned pairwise distinct entries, each listed exactly once before and after the restart.",
+   note="Trusted: sim environment (atomic durable cache puts); interleaving points are the H4 hooks, code between them runs freely.",
+   tech="stateless model checking: exhaustive / deviation-bounded schedule enumeration of the real write path under a cooperative scheduler at hooked points"),
 })
 NOT_APPLICABLE = []
 ALL = ["C%02d" % i for i in range(1, 21)]
